@@ -389,6 +389,45 @@ pub enum HygieneEnum {
 #[cfg(not(verif_no_edge))]
 proj_enum!(HygieneEnum { A { state, x, e, s, v, tag_value, tag_value_string }, B { key, value, map, error } });
 
+/// one variant under camelCase, one under lowercase, one without rule, all with the same field identifiers
+#[derive(Deserr, Debug)]
+#[deserr(tag = "t")]
+pub enum VariantRuleMix {
+    #[deserr(rename_all = camelCase)]
+    Created { user_id: u8, last_name: u8 },
+    #[deserr(rename_all = lowercase)]
+    Deleted { user_id: u8, last_name: u8 },
+    Kept { user_id: u8, last_name: u8 },
+    #[deserr(rename_all = camelCase)]
+    Again { user_id: u8 },
+}
+proj_enum!(VariantRuleMix { Created { user_id, last_name }, Deleted { user_id, last_name }, Kept { user_id, last_name }, Again { user_id } });
+
+/// two neighbouring variants with the same effective name (the first one wins), others after them
+#[derive(Deserr, Debug)]
+#[deserr(rename_all = lowercase)]
+#[allow(unreachable_patterns)]
+pub enum DupNames {
+    Trunk,
+    #[deserr(rename = "main")]
+    Master,
+    Main,
+    Develop,
+    Release,
+}
+proj_enum!(DupNames { Trunk, Master, Main, Develop, Release });
+
+/// PascalCase / single-word upper-case identifiers under camelCase (only the first letter is lowered)
+#[derive(Deserr, Debug)]
+#[deserr(rename_all = camelCase, deny_unknown_fields)]
+pub struct CamelPascal {
+    Name: String,
+    Id: u8,
+    OwnerName: Option<u8>,
+    plain: bool,
+}
+proj_struct!(CamelPascal { Name, Id, OwnerName, plain });
+
 /// raw identifiers as variant names: without any rename, under rename_all, with an explicit rename
 #[derive(Deserr, Debug)]
 #[deserr(tag = "t")]
@@ -1056,6 +1095,21 @@ pub fn defs() -> Defs {
     d.add(st(sdef("PortInner", vec![f("port", Ty::Str).try_from("try_port")])));
     d.add(st(sdef("PortS", vec![f("port", Ty::Str).try_from("try_port"), f("name", Ty::Str), f("backups", vec(named("PortInner"))).default(Proj::Seq(vec![]))])));
     d.add(Def::Enum(edef(
+        "VariantRuleMix",
+        "t",
+        vec![
+            vd("Created", "Created", Some(vec![f("user_id", u(8)).key("userId"), f("last_name", u(8)).key("lastName")])),
+            vd("Deleted", "Deleted", Some(vec![f("user_id", u(8)), f("last_name", u(8))])),
+            vd("Kept", "Kept", Some(vec![f("user_id", u(8)), f("last_name", u(8))])),
+            vd("Again", "Again", Some(vec![f("user_id", u(8)).key("userId")])),
+        ],
+    )));
+    d.add(Def::UnitEnum(udef("DupNames", &[("Trunk", "trunk"), ("Master", "main"), ("Main", "main"), ("Develop", "develop"), ("Release", "release")])));
+    d.add(st(StructDef {
+        deny: Deny::Default,
+        ..sdef("CamelPascal", vec![f("Name", Ty::Str).key("name"), f("Id", u(8)).key("id"), f("OwnerName", opt(u(8))).key("ownerName"), f("plain", Ty::Bool)])
+    }));
+    d.add(Def::Enum(edef(
         "RawVariants",
         "t",
         vec![vd("move", "move", Some(vec![f("speed", u(8))])), vd("type", "type", None), vd("Copy", "Copy", Some(vec![f("n", u(8))])), vd("Plain", "Plain", None)],
@@ -1348,6 +1402,9 @@ pub fn registry() -> Registry {
     r.all::<BTreeMap<String, ()>>("BTreeMap<String,()>", map(KeyTy::Str, Ty::Unit), CT);
     r.all::<Vec<PhantomData<u8>>>("Vec<PhantomData<u8>>", vec(Ty::Phantom), CT);
     r.all::<Option<Option<()>>>("Option<Option<()>>", opt(opt(Ty::Unit)), CT);
+    r.all::<VariantRuleMix>("VariantRuleMix", named("VariantRuleMix"), &["derive", "enum", "rename"]);
+    r.all::<DupNames>("DupNames", named("DupNames"), &["derive", "unit-enum", "rename"]);
+    r.all::<CamelPascal>("CamelPascal", named("CamelPascal"), &["derive", "rename", "deny"]);
     r.all::<RawVariants>("RawVariants", named("RawVariants"), &["derive", "enum", "raw-ident"]);
     r.all::<RawUnit>("RawUnit", named("RawUnit"), &["derive", "unit-enum", "raw-ident", "rename"]);
     r.all::<RawUnitCamel>("RawUnitCamel", named("RawUnitCamel"), &["derive", "unit-enum", "raw-ident", "rename"]);
